@@ -49,7 +49,7 @@ struct GeneratorTask {
 async fn try_start_task(
     topic: &str,
     frame: &Frame,
-    generators: &mut HashMap<String, GeneratorTask>,
+    generators: &mut HashMap<(Scru128Id, String), GeneratorTask>,
     engine: &nu::Engine,
     store: &Store,
 ) {
@@ -80,7 +80,7 @@ async fn try_start_task(
 async fn handle_spawn_event(
     topic: &str,
     frame: Frame,
-    generators: &mut HashMap<String, GeneratorTask>,
+    generators: &mut HashMap<(Scru128Id, String), GeneratorTask>,
     engine: nu::Engine,
     store: Store,
 ) -> Result<(), Box<dyn std::error::Error + Send + Sync>> {
@@ -90,7 +90,7 @@ async fn handle_spawn_event(
         .and_then(|meta| serde_json::from_value::<GeneratorMeta>(meta).ok())
         .unwrap_or_default();
 
-    if generators.contains_key(topic) {
+    if generators.contains_key(&(frame.context_id, topic.to_string())) {
         return Err("Updating existing generator is not implemented".into());
     }
 
@@ -107,7 +107,7 @@ async fn handle_spawn_event(
         expression: expression.clone(),
     };
 
-    generators.insert(topic.to_string(), task.clone());
+    generators.insert((frame.context_id, topic.to_string()), task.clone());
 
     spawn(engine.clone(), store.clone(), task).await;
     Ok(())
@@ -120,8 +120,8 @@ pub async fn serve(
     let options = ReadOptions::builder().follow(FollowOption::On).build();
     let mut recver = store.read(options).await;
 
-    let mut generators: HashMap<String, GeneratorTask> = HashMap::new();
-    let mut compacted_frames: HashMap<String, Frame> = HashMap::new();
+    let mut generators: HashMap<(Scru128Id, String), GeneratorTask> = HashMap::new();
+    let mut compacted_frames: HashMap<(Scru128Id, String), Frame> = HashMap::new();
 
     // Phase 1: Collect and compact messages until threshold
     while let Some(frame) = recver.recv().await {
@@ -136,7 +136,7 @@ pub async fn serve(
                 .strip_suffix(".spawn.error")
                 .or_else(|| frame.topic.strip_suffix(".spawn"))
             {
-                compacted_frames.insert(topic.to_string(), frame);
+                compacted_frames.insert((frame.context_id, topic.to_string()), frame);
             }
         }
     }
@@ -156,7 +156,7 @@ pub async fn serve(
         }
 
         if let Some(topic) = frame.topic.strip_suffix(".stop") {
-            if let Some(task) = generators.get(topic) {
+            if let Some(task) = generators.get(&(frame.context_id, topic.to_string())) {
                 // respawn the task in a second
                 let engine = engine.clone();
                 let store = store.clone();
